@@ -35,6 +35,31 @@ def race_reports(stderr_text):
     return out
 
 
+def conc_add_to(res, tier, clauses, pid):
+    """the connections-through-one-server run as a PART of another property's check (clauses of L4ConcTrace)"""
+    vdrive = build_harness()
+    with Scratch("verif-conc-") as tmp:
+        copy_specs(tmp)
+        tr = os.path.join(tmp, "conc.ndjson")
+        summ = os.path.join(tmp, "conc.sum.json")
+        errf = os.path.join(tmp, "conc.err")
+        with open(errf, "w") as ef:
+            p = subprocess.run([vdrive, "conc-run", "-out", tr, "-summary", summ, "-n", "64", "-seed", str(seed())], stdout=subprocess.PIPE, stderr=ef, text=True, timeout=3000)
+        if p.returncode != 0:
+            rcr = repo_crash(open(errf).read())
+            if rcr:
+                raise RepoCrash(rcr[0], rcr[1], "conc-run", open(errf).read()[-3000:])
+            raise Inconclusive(f"conc-run failed rc={p.returncode}: {p.stdout[-1500:]} " + open(errf).read()[-1500:])
+        n, bad, st = validate_traces(tmp, tr, "conc_traces.ndjson", "L4ConcTrace.tla", "L4ConcTrace.cfg", max_shards=4)
+        res.coverage["traces_validated_against_impl"] = res.coverage.get("traces_validated_against_impl", 0) + n
+        res.coverage["through_one_server"] = dict(connections=64, clauses=list(clauses), rule="connections of several kinds through ONE provisioned Server (Server.handle, pooled matching buffers), one after the other and all at once")
+        traces = {json.loads(l)["id"]: json.loads(l) for l in open(tr)}
+        for b in bad:
+            mine = [c for c in b["clauses"] if c.split()[0] in clauses]
+            if mine:
+                res.violation("conc:" + "+".join(sorted(c.split()[0] for c in mine)), "; ".join(mine) + f" (trace {b['id']})", traces[b["id"]])
+
+
 def run(res, tier):
     # 1. cross-talk through the listener wrapper and its buffer pool: model + real runs (clause L3)
     check_c13.listener_pipeline(res, tier, ("L3",), "C08")
